@@ -28,7 +28,6 @@ var rawFuncs = map[string]struct {
 	"s_base": {"s_base", SInt}, "s_off": {"s_off", SInt}, "s_len": {"s_len", SInt}, "s_cap": {"s_cap", SInt},
 	"arr2str": {"arr2str", SStr},
 	"rv_valid": {"rv_valid", SBool}, "rv_val": {"rv_val", SVal}, "rv_iface": {"rv_iface", SBool}, "mk_rv": {"mk_rv", "RV"},
-	"wsink": {"wsink", SVal},
 	"rvkind": {"rvkind", SInt}, "tconvertible": {"tconvertible", SBool},
 }
 
@@ -91,7 +90,11 @@ func (c *SpecCtx) call(e *ast.CallExpr) TT {
 				body := c.withBound(name, SInt, func() Term { return c.formulaExpr(e.Args[3]) })
 				q := mk(SInt, "q_"+name)
 				if id.Name == "forall" {
-					return TT{T: mk(SBool, fmt.Sprintf("(forall ((q_%s Int)) (=> (and (<= %s %s) (< %s %s)) %s))", name, lo.T.S, q.S, q.S, hi.T.S, body.S)), Ty: boolT}
+					inner := fmt.Sprintf("(=> (and (<= %s %s) (< %s %s)) %s)", lo.T.S, q.S, q.S, hi.T.S, body.S)
+					if pats := autoPatterns(body.S, "q_"+name); pats != "" {
+						return TT{T: mk(SBool, fmt.Sprintf("(forall ((q_%s Int)) (! %s %s))", name, inner, pats)), Ty: boolT}
+					}
+					return TT{T: mk(SBool, fmt.Sprintf("(forall ((q_%s Int)) %s)", name, inner)), Ty: boolT}
 				}
 				return TT{T: mk(SBool, fmt.Sprintf("(exists ((q_%s Int)) (and (<= %s %s) (< %s %s) %s))", name, lo.T.S, q.S, q.S, hi.T.S, body.S)), Ty: boolT}
 			}
@@ -102,6 +105,11 @@ func (c *SpecCtx) call(e *ast.CallExpr) TT {
 				kw := "forall"
 				if id.Name == "exists" {
 					kw = "exists"
+				}
+				if kw == "forall" {
+					if pats := autoPatterns(body.S, "q_"+name); pats != "" {
+						return TT{T: mk(SBool, fmt.Sprintf("(forall ((q_%s %s)) (! %s %s))", name, sortName, body.S, pats)), Ty: boolT}
+					}
 				}
 				return TT{T: mk(SBool, fmt.Sprintf("(%s ((q_%s %s)) %s)", kw, name, sortName, body.S)), Ty: boolT}
 			}
@@ -205,6 +213,46 @@ func (c *SpecCtx) call(e *ast.CallExpr) TT {
 				return TT{T: ge(x.T, c.st.alloc0), Ty: boolT}
 			}
 			c.failf("fresh() of sort %s", x.T.Sort)
+		case "wsink":
+			// the writer that finally receives the bytes: a trimWriter forwards to its w
+			x := c.tr(e.Args[0])
+			twt := c.w().lookupType("*render.trimWriter")
+			if twt == nil {
+				return x
+			}
+			ptr := c.w().unbox(twt, x.T, c.ex.d)
+			fld := c.ex.loadField(c.st, ptr, twt.(*types.Pointer).Elem(), 0)
+			return TT{T: ite(eq(app(SInt, "typeof", x.T), intLit(int64(c.w().typeID(twt, c.ex.d)))), fld, x.T), Ty: x.Ty}
+		case "valid":
+			// the declared type invariant of the argument's type
+			x := c.tr(e.Args[0])
+			if x.Ty == nil {
+				c.failf("valid() of untyped value")
+			}
+			if x.T.IsZero() {
+				c.failf("valid() of a tracked interior pointer")
+			}
+			return TT{T: c.ex.typeInv(c.st, x.Ty, x.T), Ty: boolT}
+		case "sameheap", "sameold":
+			// sameheap("H"): heap H is unchanged since the old state;
+			// sameold("H"): every object that existed in the old state is unchanged in H
+			if c.old == nil {
+				c.failf("%s() needs an old state", id.Name)
+			}
+			hn := strings.Trim(e.Args[0].(*ast.BasicLit).Value, "\"")
+			srt := c.st.hsorts[hn]
+			if srt == "" {
+				srt = c.ex.heapSortByName(hn)
+			}
+			if srt == "" {
+				c.failf("unknown heap %q", hn)
+			}
+			h1 := c.ex.heap(c.st, hn, srt)
+			h0 := c.ex.heap(c.old, hn, srt)
+			if id.Name == "sameheap" {
+				return TT{T: eq(h1, h0), Ty: boolT}
+			}
+			return TT{T: mk(SBool, fmt.Sprintf("(forall ((r Int)) (! (=> (< r %s) (= (select %s r) (select %s r))) :pattern ((select %s r))))", c.old.alloc.S, h1.S, h0.S, h1.S)), Ty: boolT}
 		case "newbuf":
 			// x is a *bytes.Buffer allocated since the old state (a fresh capture buffer)
 			if c.old == nil {
@@ -513,20 +561,68 @@ func (ex *Exec) applyIfacePure(st *State, ic *IfaceContract, m *IfaceMethod, rec
 	}
 	rt := sig.Results().At(0).Type()
 	rs := ex.w.sortOf(rt, ex.d)
-	name := smtName("m$", ic.Sel+"$"+m.Name)
+	// one function symbol per method name and signature: dynamic dispatch depends on
+	// the dynamic type and the method, not on the static interface type of the call
+	as := []string{SVal}
+	for i := 0; i < sig.Params().Len(); i++ {
+		as = append(as, ex.w.sortOf(sig.Params().At(i).Type(), ex.d))
+	}
+	name := smtName("m$", m.Name+"$"+strings.Join(as[1:], "_")+"$"+rs)
 	ts := []Term{recv}
 	for _, a := range args {
 		ts = append(ts, a.T)
 	}
 	if !ex.d.has("fun:" + name) {
-		as := []string{SVal}
-		for i := 0; i < sig.Params().Len(); i++ {
-			as = append(as, ex.w.sortOf(sig.Params().At(i).Type(), ex.d))
-		}
 		ex.d.declFun(name, as, rs)
+	}
+	if axk := "ifaceax:" + ic.Sel + "." + m.Name; !ex.d.has(axk) {
+		ex.d.seen[axk] = true
 		ex.ifaceAxioms(ic, m, it, sig, name, as, rs)
 	}
-	return TT{T: app(rs, name, ts...), Ty: rt}
+	res := app(rs, name, ts...)
+	ex.readsLinks(st, it, m.Name, recv, ts[1:], res)
+	return TT{T: res, Ty: rt}
+}
+
+// readsLinks: for implementers whose contract is `reads` (a heap-reading accessor of
+// an immutable object), the interface function's value on a receiver of that dynamic
+// type is what the accessor's ensures says in the CURRENT heap. Sound because the
+// fields of an immutable type are only ever written on objects still private to the
+// allocating activation (immut obligations).
+func (ex *Exec) readsLinks(st *State, it types.Type, mname string, recv Term, args []Term, res Term) {
+	if st == nil || st.hver == nil || st.frames == nil && st.pc == nil && len(st.heaps) == 0 && st.alloc.S == "1" {
+		return
+	}
+	for _, sel := range ex.w.implementers(it, mname) {
+		con := ex.w.cons[sel]
+		if con == nil || !con.Reads || sel == ex.sel {
+			continue
+		}
+		fn := ex.w.fns[sel]
+		if fn == nil || len(fn.Params) != len(args)+1 {
+			continue
+		}
+		recvT := fn.Signature.Recv().Type()
+		key := "readslink:" + sel + ":" + recv.S + ":" + joinTerms(args) + fmt.Sprint(st.epoch, st.hver)
+		if ex.linkSeen == nil {
+			ex.linkSeen = map[string]bool{}
+		}
+		_ = key
+		c := &SpecCtx{ex: ex, st: st, old: st, binds: map[string]TT{}, bound: map[string]string{}, pkg: pkgOf(fn)}
+		c.binds[fn.Params[0].Name()] = TT{T: ex.w.unbox(recvT, recv, ex.d), Ty: recvT}
+		for i, a := range args {
+			c.binds[fn.Params[i+1].Name()] = TT{T: a, Ty: fn.Params[i+1].Type()}
+		}
+		c.binds["result"] = TT{T: res, Ty: fn.Signature.Results().At(0).Type()}
+		var post []Term
+		for i := range con.Ensures {
+			c.clause = &con.Ensures[i]
+			post = append(post, c.Formula(con.Ensures[i].Text))
+		}
+		tid := intLit(int64(ex.w.typeID(recvT, ex.d)))
+		st.assume(implies(eq(app(SInt, "typeof", recv), tid), and(post...)))
+		ex.d.trust("accessor " + sel + " of an immutable object read in the current heap (fields written only while the object is private to its allocating activation)")
+	}
 }
 
 func (ex *Exec) ifaceAxioms(ic *IfaceContract, m *IfaceMethod, it types.Type, sig *types.Signature, name string, as []string, rs string) {
@@ -566,12 +662,16 @@ func (ex *Exec) ifaceAxioms(ic *IfaceContract, m *IfaceMethod, it types.Type, si
 	// NOTE: no machine-range fact for the result here: with arithmetic treated as
 	// mathematical a universally quantified range fact can contradict a defining
 	// contract (e.g. Range.Len == e-b+1); ranges are assumed per call site instead.
-	ex.d.axiom("iface:"+name, fmt.Sprintf("(assert (forall (%s) (! %s :pattern (%s))))", strings.Join(qs, " "), implies(and(pre...), and(post...)).S, res.S))
+	ex.d.axiom("iface:"+ic.Sel+":"+name, fmt.Sprintf("(assert (forall (%s) (! %s :pattern (%s))))", strings.Join(qs, " "), implies(and(pre...), and(post...)).S, res.S))
 	ex.d.trust("interface contract " + ic.Sel + "." + m.Name + " (implementations in /repo proved by impl obligations; external implementations assumed to satisfy it)")
 	// links to concrete pure implementations
 	for _, sel := range ex.w.implementers(it, m.Name) {
 		con := ex.w.cons[sel]
-		if con == nil || !con.Pure {
+		if con == nil {
+			ex.d.trust("in-repo implementation without contract (assumed to satisfy " + ic.Sel + "." + m.Name + "): " + sel)
+			continue
+		}
+		if !con.Pure {
 			continue
 		}
 		fn := ex.w.fns[sel]
@@ -613,8 +713,14 @@ func (w *World) implementers(it types.Type, m string) []string {
 	}
 	var out []string
 	for _, fn := range w.allFns {
-		if fn.Signature.Recv() == nil || fn.Name() != m || !w.inRepo(fn) || fn.Synthetic != "" {
+		if fn.Signature.Recv() == nil || fn.Name() != m || !w.inRepo(fn) {
 			continue
+		}
+		if fn.Synthetic != "" {
+			// promoted-method wrappers count only when they carry a contract
+			if _, ok := w.cons[shortName(fn.String())]; !ok {
+				continue
+			}
 		}
 		rt := fn.Signature.Recv().Type()
 		if types.Implements(rt, iface) {
@@ -622,4 +728,65 @@ func (w *World) implementers(it types.Type, m string) []string {
 		}
 	}
 	return out
+}
+
+// autoPatterns picks instantiation triggers for a user quantifier: the innermost
+// select / uninterpreted applications that mention the bound variable.
+func autoPatterns(body, v string) string {
+	seen := map[string]bool{}
+	var pats []string
+	var walk func(s string) bool // returns whether s mentions v
+	walk = func(s string) bool {
+		if !strings.Contains(s, v) {
+			return false
+		}
+		head, args := splitArgs(s)
+		if args == nil {
+			return s == v
+		}
+		childHas := false
+		innerPattern := false
+		for _, a := range args {
+			if walk(a) {
+				childHas = true
+				if len(a) > 0 && a[0] == '(' {
+					h, _ := splitArgs(a)
+					if isTriggerHead(h) {
+						innerPattern = true
+					}
+				}
+			}
+		}
+		_ = innerPattern
+		if childHas && isTriggerHead(head) && !strings.Contains(s, "(forall ") && !strings.Contains(s, "(exists ") {
+			// keep only innermost trigger terms: drop if an argument already produced one containing v
+			for _, p := range pats {
+				if strings.Contains(s, p) && p != s {
+					return true
+				}
+			}
+			if !seen[s] && len(s) < 400 {
+				seen[s] = true
+				pats = append(pats, s)
+			}
+		}
+		return childHas
+	}
+	walk(body)
+	if len(pats) == 0 || len(pats) > 4 {
+		return ""
+	}
+	var b strings.Builder
+	for _, p := range pats {
+		b.WriteString(":pattern (" + p + ") ")
+	}
+	return strings.TrimSpace(b.String())
+}
+
+func isTriggerHead(h string) bool {
+	switch h {
+	case "select", "typeof", "str_at", "str_sub", "pl_elem":
+		return true
+	}
+	return strings.HasPrefix(h, "m$") || strings.HasPrefix(h, "pf$") || strings.HasPrefix(h, "df$") || strings.HasPrefix(h, "box$") || strings.HasPrefix(h, "unbox$")
 }
